@@ -14,14 +14,33 @@ func pointReader(r io.Reader, byteOrder binary.ByteOrder) (geom.Geom, error) {
 	return point, nil
 }
 
+// maxChunk is the largest number of points allocated before their data has
+// been read.
+const maxChunk = 1024
+
+func minUint32(a, b uint32) uint32 {
+	if a < b {
+		return a
+	}
+	return b
+}
+
 func readPoints(r io.Reader, byteOrder binary.ByteOrder) ([]geom.Point, error) {
 	var numPoints uint32
 	if err := binary.Read(r, byteOrder, &numPoints); err != nil {
 		return nil, err
 	}
-	points := make([]geom.Point, numPoints)
-	if err := binary.Read(r, byteOrder, &points); err != nil {
-		return nil, err
+	// numPoints comes from the input and is not trusted: read the points in
+	// chunks of at most maxChunk so that the memory allocated stays
+	// proportional to the data actually present, whatever the header claims.
+	points := make([]geom.Point, 0, minUint32(numPoints, maxChunk))
+	for remaining := numPoints; remaining > 0; {
+		chunk := make([]geom.Point, minUint32(remaining, maxChunk))
+		if err := binary.Read(r, byteOrder, &chunk); err != nil {
+			return nil, err
+		}
+		points = append(points, chunk...)
+		remaining -= uint32(len(chunk))
 	}
 	return points, nil
 }
